@@ -122,7 +122,7 @@ class FieldMappingDetectionItem(Contract):
     that differ only in the field (values, value linking, negation, modifiers kept); an unmapped / non-matching field is left alone"""
     id = "C12.FieldMappingTransformationBase.apply_detection_item"
     target = f"{BASE}:FieldMappingTransformationBase.apply_detection_item"
-    props = ("C12", "C13")
+    props = ("C12", "C13", "C18", "C01")
     cases = ("one", "many", "unmapped", "no_match")
     assumed = ["apply_field_name / match_field_name abstract; values without field references; keyword-to-field wildcard case covered by the bounded stand-in"]
 
@@ -521,6 +521,7 @@ class AddConditionBounded(Bounded):
 
     def run(self, tier, seed):
         import itertools, copy
+        import re as re_
         from sigma.rule import SigmaRule
         from sigma.processing.pipeline import ProcessingPipeline
         from contracts.c02_bounded import Ref, tokenize, ev_ref
@@ -568,4 +569,17 @@ class AddConditionBounded(Bounded):
                 seen["add_condition"] = seen.get("add_condition", 0) + 1
                 if seen["add_condition"] <= 2:
                     fails.append({"text": f"two add_condition items named {name!r} / {name + '_second'!r} (item identifiers {idents}) on a rule with the conditions {list(cset)}: {bad}", "input": [name, list(cset), list(idents)]})
+        # two items WITHOUT a name: each draws its own random name - both detections are there, both conditions hold
+        for cset in (conds[:1], conds[1:3]):
+            ev += 1
+            try:
+                rule = SigmaRule.from_dict({"title": "t", "logsource": {"category": "c"}, "detection": {**{d: {d: 1} for d in dets}, "condition": list(cset)}})
+                ProcessingPipeline.from_dict({"transformations": [{"type": "add_condition", "conditions": {"k1": 1}}, {"type": "add_condition", "conditions": {"k2": 2}}]}).apply(rule)
+                added = [n for n in rule.detection.detections if n not in dets]
+                ok = len(added) == 2 and all(all(re_.search(r"(?<![\w])" + n + r"(?![\w])", c.condition) for n in added) for c in rule.detection.parsed_condition)
+                what = f"added detections {added}, conditions {[c.condition for c in rule.detection.parsed_condition]}"
+            except Exception as e:
+                ok, what = False, f"{type(e).__name__}: {e}"
+            if not ok:
+                fails.append({"text": f"two add_condition items without a name on the conditions {list(cset)}: {what} - expected two distinct added detections, both named by every condition", "input": ["unnamed", list(cset)]})
         return {"evaluations": ev, "distinct_nontrivial": ev, "failures": fails, "failure_counts": seen, "bound": f"{len(names)} names x 4 condition sets x 3 identifier settings", "rule": "every combination is non-trivial", "samples": [], "exhaustive": True}
